@@ -5,6 +5,7 @@ import (
 
 	"github.com/aperturerobotics/bifrost/link"
 	"github.com/aperturerobotics/bifrost/peer"
+	"github.com/aperturerobotics/bifrost/util/simhook"
 	"github.com/aperturerobotics/controllerbus/directive"
 	"github.com/sirupsen/logrus"
 )
@@ -51,6 +52,7 @@ func (e *establishLinkHandler) HandleValueAdded(inst directive.Instance, val dir
 	if !ok || vl == nil {
 		return
 	}
+	simhook.Yield("holdopen/value-added", e.peerID.String())
 	e.mtx.Lock()
 	e.valCount++
 	nrr := e.rigidRef == nil
@@ -62,6 +64,7 @@ func (e *establishLinkHandler) HandleValueAdded(inst directive.Instance, val dir
 			WithField("local-peer", vl.GetLocalPeer().String()).
 			Debug("starting peer hold-open tracking")
 		go func() {
+			simhook.Yield("holdopen/acquire", e.peerID.String())
 			e.mtx.Lock()
 			e.rigidRef = e.di.AddReference(nil, false)
 			e.mtx.Unlock()
@@ -71,6 +74,7 @@ func (e *establishLinkHandler) HandleValueAdded(inst directive.Instance, val dir
 
 // HandleValueRemoved is called when a value is removed from the directive.
 func (e *establishLinkHandler) HandleValueRemoved(inst directive.Instance, val directive.AttachedValue) {
+	simhook.Yield("holdopen/value-removed", e.peerID.String())
 	e.mtx.Lock()
 	if e.valCount > 0 {
 		e.valCount--
@@ -85,6 +89,7 @@ func (e *establishLinkHandler) HandleValueRemoved(inst directive.Instance, val d
 // HandleInstanceDisposed is called when a directive instance is disposed.
 // This will occur if Close() is called on the directive instance.
 func (e *establishLinkHandler) HandleInstanceDisposed(inst directive.Instance) {
+	simhook.Yield("holdopen/disposed", e.peerID.String())
 	e.mtx.Lock()
 
 	eref := e.ref
